@@ -9,7 +9,7 @@ from .common import F_BASE, F_BC, F_QUAL, F_QUAN, calls, construct, loc
 from . import c04, c05, c07, carver, quant
 
 EXPLANATION = (
-    "Decides: R-position-truthiness (GroupedList never tests a position by truthiness: position 0 is the first group of the order); "
+    "Decides: R-leader-position (replace_group_leader keeps the renamed group at its position in the order); R-position-truthiness (GroupedList never tests a position by truthiness: position 0 is the first group of the order); "
     "R-neighbour-merge (abstract interpretation of find_closest_modality over 'offset from "
     "idx': every returned value is idx-1 or idx+1, the constant 1 only under idx == 0, the last bucket "
     "merges left; find_common_modalities groups order[discarded] into order[that neighbour], adds the "
@@ -27,7 +27,7 @@ EXPLANATION = (
     "on data: a boundary equal to 0.0 is a value)."
 )
 NOT_DECIDED = "monotonicity of the fitted step function on actual boundaries (follows from the above given sortedness; the numeric boundaries are runtime values)"
-FLOORS = {"R-neighbour-merge": 4, "R-boundaries-sorted-unique-inf": 4, "R-leader-is-max": 1, "R-interval-lookup": 2, "R-total-cover": 3, "R-categorical-order": 5, "R-comutation": 6, "R-contiguous-groups": 12, "R-index-kept": 1, "R-value-truthiness": 1, "R-qualitative-map": 1, "R-label-alignment": 2, "R-readonly-queries": 3, "R-position-truthiness": 1}
+FLOORS = {"R-neighbour-merge": 4, "R-boundaries-sorted-unique-inf": 4, "R-leader-is-max": 1, "R-interval-lookup": 2, "R-total-cover": 3, "R-categorical-order": 5, "R-comutation": 6, "R-contiguous-groups": 12, "R-index-kept": 1, "R-value-truthiness": 1, "R-qualitative-map": 1, "R-label-alignment": 2, "R-readonly-queries": 3, "R-position-truthiness": 1, "R-leader-position": 1}
 
 
 def rule_apply_combination(ctx):
